@@ -126,6 +126,8 @@ pub enum NodeEv {
     Invoice { dt: Dt, amt: Amt, h: u8 },
     Onchain { dt: Dt, amt: Amt },
     Restart,
+    /// the last invoice proposal is sent again unchanged (a node retries a refused invoice)
+    RetryInvoice { dt: Dt },
 }
 
 #[derive(Clone, Debug, Serialize, Deserialize)]
@@ -168,6 +170,7 @@ fn node_ev_strat() -> impl Strategy<Value = NodeEv> {
         3 => (dt_strat(), amt_strat(), any::<u8>()).prop_map(|(dt, amt, h)| NodeEv::Invoice { dt, amt, h }),
         4 => (dt_strat(), amt_strat()).prop_map(|(dt, amt)| NodeEv::Onchain { dt, amt }),
         3 => Just(NodeEv::Restart),
+        3 => dt_strat().prop_map(|dt| NodeEv::RetryInvoice { dt }),
     ]
 }
 
@@ -297,6 +300,8 @@ impl C12 {
         let payee = PublicKey::from_secret_key(&w.secp, &SecretKey::from_slice(&[5u8; 32]).unwrap());
         let mut t = w.clock.now().as_secs();
         let mut refused = 0u32;
+        // the last invoice proposal: (invoice, amount, already counted as approved)
+        let mut last_inv: Option<(Invoice, u64, bool)> = None;
         let mut restart_between = false;
         let mut restarted_since_approval = false;
         let mut shape = vec![];
@@ -312,6 +317,7 @@ impl C12 {
                     let is_inv = matches!(ev, NodeEv::Invoice { .. });
                     let res: Out<bool> = if is_inv {
                         let Some(inv) = make_invoice(*h, a.min(u64::MAX / 4), Duration::from_secs(t)) else { continue };
+                        last_inv = Some((inv.clone(), a.min(u64::MAX / 4), false));
                         let node = w.node.clone();
                         call(move || node.add_invoice(inv))
                     } else {
@@ -329,6 +335,11 @@ impl C12 {
                     if res.is_panic() {
                         st.class("node_abort");
                         break;
+                    }
+                    if approved && is_inv {
+                        if let Some(l) = last_inv.as_mut() {
+                            l.2 = true;
+                        }
                     }
                     if approved {
                         if restarted_since_approval && !pay.approved.is_empty() {
@@ -388,6 +399,32 @@ impl C12 {
                         }
                     } else {
                         refused += 1;
+                    }
+                }
+                NodeEv::RetryInvoice { dt } => {
+                    let Some((inv, a, counted)) = last_inv.clone() else { continue };
+                    t += dt.secs(b, n);
+                    w.clock.set(Duration::from_secs(t));
+                    let node = w.node.clone();
+                    let res: Out<bool> = call(move || node.add_invoice(inv));
+                    let approved = matches!(res, Out::Ok(true));
+                    st.class(format!("retry-invoice:{}:{}", if counted { "of-approved" } else { "of-refused" }, res.tag()));
+                    if res.is_panic() {
+                        st.class("node_abort");
+                        break;
+                    }
+                    // an approved invoice that is proposed again is answered from the record and is
+                    // not a new approval; a refused one that is now approved counts now
+                    if approved && !counted {
+                        last_inv.as_mut().unwrap().2 = true;
+                        shape.push((2u8, true));
+                        if let Err(sum) = pay.approve(t, a) {
+                            let site = if w.restarts > 0 { "C12:node:payment-window-exceeded-after-restart" } else { "C12:node:payment-window-exceeded" };
+                            ctx.report(st, Violation::new(site, format!(
+                                "step {} {:?}: approved payments within {} s sum to {} msat > limit {} (a refused invoice was approved on retry; restarts so far {}, approvals {:?})",
+                                i, ev, pay.b * (pay.n - 1), sum, limit, w.restarts, pay.approved)))?;
+                            break;
+                        }
                     }
                 }
                 NodeEv::Restart => {
